@@ -685,7 +685,7 @@ Qed.
 
 Lemma GInv_init0 : forall c,
   GInv (mkState (fun a => arch_init a (nth a (cf_archs c) no_arch))
-                (fun j => mkShr (lres_init (VInt (nth j (cf_shared c) 0%Z)) (List.length (cf_archs c))) None)
+                (fun j => mkShr (lres_init (nth j (cf_shared c) (VInt 0%Z)) (List.length (cf_archs c))) None)
                 (fun _ => []) (fun _ => []) (fun m => nth m (cf_owner c) 0) (List.length (cf_archs c))).
 Proof.
   intros c. constructor.
@@ -700,16 +700,16 @@ Proof.
   intros c sched. unfold run, run_from, init.
   assert (G0 : GInv (fold_left begin_attempt (seq 0 (List.length (cf_archs c)))
              (mkState (fun a => arch_init a (nth a (cf_archs c) no_arch))
-                (fun j => mkShr (lres_init (VInt (nth j (cf_shared c) 0%Z)) (List.length (cf_archs c))) None)
+                (fun j => mkShr (lres_init (nth j (cf_shared c) (VInt 0%Z)) (List.length (cf_archs c))) None)
                 (fun _ => []) (fun _ => []) (fun m => nth m (cf_owner c) 0) (List.length (cf_archs c))))).
   { generalize (GInv_init0 c). generalize (seq 0 (List.length (cf_archs c))).
     intros l. generalize (mkState (fun a => arch_init a (nth a (cf_archs c) no_arch))
-                (fun j => mkShr (lres_init (VInt (nth j (cf_shared c) 0%Z)) (List.length (cf_archs c))) None)
+                (fun j => mkShr (lres_init (nth j (cf_shared c) (VInt 0%Z)) (List.length (cf_archs c))) None)
                 (fun _ => []) (fun _ => []) (fun m => nth m (cf_owner c) 0) (List.length (cf_archs c))).
     induction l as [|x l IH]; intros st G; cbn; [exact G|]. apply IH. apply GInv_begin. exact G. }
   revert G0. generalize (fold_left begin_attempt (seq 0 (List.length (cf_archs c)))
              (mkState (fun a => arch_init a (nth a (cf_archs c) no_arch))
-                (fun j => mkShr (lres_init (VInt (nth j (cf_shared c) 0%Z)) (List.length (cf_archs c))) None)
+                (fun j => mkShr (lres_init (nth j (cf_shared c) (VInt 0%Z)) (List.length (cf_archs c))) None)
                 (fun _ => []) (fun _ => []) (fun m => nth m (cf_owner c) 0) (List.length (cf_archs c)))).
   induction sched as [|ev sched IH]; intros st G; cbn; [exact G|]. apply IH. apply GInv_step. exact G.
 Qed.
